@@ -116,6 +116,19 @@ struct ICmp {
    int operator()(const INode& a, long long k) const { return a.key < k ? -1 : (a.key > k ? 1 : 0); }
 };
 struct IChain : rb::chain<INode> { INode* get_root() const { return this->root; } };
+// Three-way comparators whose result type is wider than int: the signed 64-bit difference of far-apart keys (multiples of
+// 2^32 apart, more than 2^31 apart) and a floating-point difference (fractions smaller than 1).  The tree templates take
+// "a comparator that is a total order"; nothing says its result fits an int.
+struct IWideCmp {
+   long long operator()(const INode& a, const INode& b) const { return a.key - b.key; }
+   long long operator()(const INode& a, long long k) const { return a.key - k; }
+};
+struct IDoubleCmp {
+   double operator()(const INode& a, const INode& b) const { return double(a.key - b.key) / 4096.0; }
+   double operator()(const INode& a, long long k) const { return double(a.key - k) / 4096.0; }
+};
+// adapts any three-way comparator to the validator's int convention
+template<class C> struct SignOf { C c; template<class A, class B> int operator()(const A& a, const B& b) const { auto r = c(a, b); return r < 0 ? -1 : (r > 0 ? 1 : 0); } };
 
 // Owning flavour, three key kinds
 template<class T>
@@ -132,8 +145,10 @@ struct LexCmp {
                                                   [](int x, int y) { return x < y ? -1 : (x > y ? 1 : 0); });
    }
 };
+struct WideCmp { long long operator()(long long a, long long b) const { return a - b; } };
+struct DoubleCmp { double operator()(double a, double b) const { return a - b; } };
 template<class T, class C>
-struct NodeCmp { C c; int operator()(const rb::node<T>& a, const rb::node<T>& b) const { return c(a.data, b.data); } };
+struct NodeCmp { C c; int operator()(const rb::node<T>& a, const rb::node<T>& b) const { auto r = c(a.data, b.data); return r < 0 ? -1 : (r > 0 ? 1 : 0); } };
 
 static std::string seq_json(const std::vector<long long>& s, std::size_t cap = 40)
 {
@@ -143,13 +158,14 @@ static std::string seq_json(const std::vector<long long>& s, std::size_t cap = 4
 }
 
 // Run one integer sequence through the intrusive flavour (keys must be distinct) validating per `every`.
+template<class ICmp = ICmp>
 static void run_intrusive(const std::vector<long long>& seq, const char* family, long long every, bool count_case)
 {
    auto& C = ctx();
    IChain tree;
    std::vector<INode*> nodes;
    nodes.reserve(seq.size());
-   Validator<INode, ICmp> val;
+   Validator<INode, SignOf<ICmp>> val;
    Shape sh;
    RefTree ref;
    long long n = 0;
@@ -328,6 +344,7 @@ static void body(Ctx& C)
    C.assume("comparators supplied by the harness are total orders");
    C.assume("exhaustive only up to the stated bounds; longer sequences are sampled");
    for (int i = 0; i < 6; ++i) C.need(std::string("fixup_case_") + std::to_string(i));
+   C.need("wide_result_sequences");
 
    const int maxn = C.thorough ? 9 : 8;
    // -- all permutations of 1..n ------------------------------------------------------
@@ -411,6 +428,41 @@ static void body(Ctx& C)
          // common long prefixes: decisive element late; also proper prefixes of each other
          run_owning_generic<std::vector<int>, LexCmp>([&](std::size_t) { std::vector<int> v(20 + local.below(6), 7); if (local.chance(70)) v.back() = int(local.below(50)); return v; }, n / 4, "lexicographic-prefix", 1024);
          C.count("long_sequences:lexicographic");
+      }
+   }
+   // -- comparators with a result wider than int -------------------------------------------------------------
+   {
+      Rng local(hash_mix(C.seed, 4242 + C.worker));
+      const std::size_t n = C.thorough ? 20000 : 3000;
+      auto far_keys = [&](int kind) {
+         std::vector<long long> ks; std::set<long long> seen;
+         while (ks.size() < n) {
+            long long k = 0;
+            switch (kind) {
+            case 0: k = (long long)(local.below(4000)) * (1LL << 32) + (long long)local.below(3); break;          // differences that are multiples of 2^32 (+ small)
+            case 1: k = (long long)(local.below(1u << 20)) * ((1LL << 31) + 12345); break;                         // differences beyond 2^31
+            default: k = (long long)(local.next() >> 2) - (1LL << 61); break;                                      // random 62-bit keys, both signs
+            }
+            if (seen.insert(k).second) ks.push_back(k);
+         }
+         return ks;
+      };
+      for (int kind = 0; kind < 3; ++kind) {
+         auto ks = far_keys(kind);
+         const char* fam = kind == 0 ? "wide-result:multiples-of-2^32" : kind == 1 ? "wide-result:beyond-2^31" : "wide-result:random-62-bit";
+         run_intrusive<IWideCmp>(ks, fam, 512, false);
+         std::vector<long long> dup(ks); for (std::size_t i = 0; i < n / 3; ++i) dup.push_back(ks[local.below(ks.size())]);
+         run_owning_generic<long long, WideCmp>([&](std::size_t i) { return dup[i]; }, dup.size(), fam, 512);
+         C.count("wide_result_sequences", 2);
+      }
+      {  // fractional differences: a result truncated to an integer would call distinct keys equal
+         std::vector<long long> ks; for (std::size_t i = 0; i < n; ++i) ks.push_back((long long)i + 1);
+         for (std::size_t i = ks.size(); i > 1; --i) std::swap(ks[i - 1], ks[local.below(i)]);
+         run_intrusive<IDoubleCmp>(ks, "wide-result:fractional-double", 512, false);
+         std::vector<double> ds; for (auto k : ks) ds.push_back(double(k) / 4096.0);
+         for (std::size_t i = 0; i < n / 3; ++i) ds.push_back(ds[local.below(n)]);
+         run_owning_generic<double, DoubleCmp>([&](std::size_t i) { return ds[i]; }, ds.size(), "wide-result:fractional-double", 512);
+         C.count("wide_result_sequences", 2);
       }
    }
    for (int i = 0; i < 6; ++i) C.count(std::string("fixup_case_") + std::to_string(i), g_cases[i]);
